@@ -95,7 +95,7 @@ def glue_gsl(chk, h, solver, ctx, d, order):
     name = 'GetEigenSystem(order=%s), d=%d, GSL path under a contract stub of gsl_eigen_hermv' % (bool(order), d)
     problems = []
     if len(ps) != 1 or ps[0].status != 'ok' or ps[0].ret != 0:
-        problems.append('ends in %r' % [(p.status, p.ret, (p.info or {}).get('msg')) for p in ps][:2])
+        problems.append('ends in %r (rc 1 = a library exception)' % [(p.status, p.ret, (p.info or {}).get('msg')) for p in ps][:2])
     else:
         p = ps[0]
         calls = [e[0] for e in log]
@@ -150,6 +150,9 @@ def glue_replay(h, c):
         Bd = [np.array([[float(Gd[k][i][j][0]) + 1j * float(Gd[k][i][j][1]) for j in range(d)] for i in range(d)]) for k in range(d * d)]
         v = np.array([(np.trace(Hd @ Bd[k]).real / (d if k == 0 else 2.0)) for k in range(d * d)])
         try:
+            ret_, _o = h.native('h_eigen', [I(d), I(c['order']), Buf('a', v), Buf('lam', n=d), Buf('vre', n=d * d), Buf('vim', n=d * d)])
+            if ret_ != 0:
+                return True, 'the native call raises an exception (rc %d) for a dense Hermitian matrix' % ret_
             res = native_eval(h, d, v, order=c['order'])
         except Exception as e:
             return True, 'native crash: %s' % str(e)[:100]
@@ -181,6 +184,9 @@ def main(tier):
     cands = []
     seen_den = set()
     for p in ps:
+        if p.status == 'ok' and p.ret == 1:
+            chk.candidates_glue.append({'d': 3, 'order': 0, 'throws': True, 'what': 'GetEigenSystem raises an exception for a valid vector of dimension 3 (externally backed storage)'})
+            continue
         if p.status != 'ok' or p.ret != 0:
             chk.broken_q('symbolic execution of GetEigenSystem(3): %r' % ((p.status, p.ret, p.info),))
             continue
